@@ -591,7 +591,7 @@ func callSSA(i *interpreter, caller *frame, callpos token.Pos, fn *ssa.Function,
 			if ext := lookupExternal(i, fn, name); ext != nil {
 				return ext(fr, args)
 			}
-			if i.p == nil || i.p.c == nil || len(i.p.c.H.stubs) == 0 {
+			if (i.p == nil || i.p.c == nil || len(i.p.c.H.stubs) == 0) && !inAnyStubSet(name) {
 				if i.extMiss == nil {
 					i.extMiss = map[*ssa.Function]bool{}
 				}
